@@ -399,6 +399,31 @@ func (u *Unit) contractCall(st *State, instr ssa.Instruction, fs *FuncSpec, name
 		u.note("assumed contract: " + fs.Kind + " " + name)
 	}
 	u.addCover(st, site+".return", "", "the state after the call of "+name+" (its contract assumed) is not contradictory")
+	// outcome covers: a boolean result can be false and can be true, an error result can be nil,
+	// under the callee's contract (a contract that excludes an outcome the code may rely on
+	// makes everything behind that outcome vacuous).  `total OUTCOME` in the callee's block
+	// declares an excluded outcome intended.
+	for i, rv := range vals {
+		rt := rs.At(i).Type()
+		if b, ok := rt.Underlying().(*types.Basic); ok && b.Kind() == types.Bool && rv.Sort == SBool {
+			for _, pol := range []struct {
+				n string
+				t T
+			}{{"true", rv}, {"false", Not(rv)}} {
+				if fs.Excludes["result"+pol.n] {
+					continue
+				}
+				s2 := st.clone()
+				s2.assume(pol.t)
+				u.addCover(s2, fmt.Sprintf("%s.result%d.%s", site, i, pol.n), "", "the call of "+name+" can return "+pol.n+" under its contract")
+			}
+		}
+		if types.Identical(rt, types.Universe.Lookup("error").Type()) && !fs.Excludes["errnil"] {
+			s2 := st.clone()
+			s2.assume(Eq(app(SInt, "ity", rv), IntLit(0)))
+			u.addCover(s2, fmt.Sprintf("%s.result%d.nil", site, i), "", "the call of "+name+" can succeed (nil error) under its contract")
+		}
+	}
 	outs = append(outs, callRes{st: st, val: v})
 	return outs
 }
